@@ -187,6 +187,30 @@ def spec_json(spec, model, table=None):
             else:
                 nj[k] = {str(i): C.s(n) for i, n in v.items()}
         J['names'] = nj
-    if spec.producers is not None:
+    if spec.producers is not None and 'ERR' in spec.producers:
+        # a partly readable producers section: complete fields followed by a truncated one, as raw bytes
+        def leb(n):
+            out = bytearray()
+            while True:
+                b = n & 0x7f
+                n >>= 7
+                if n:
+                    out.append(b | 0x80)
+                else:
+                    out.append(b)
+                    return bytes(out)
+
+        def st_(x):
+            b = x.encode()
+            return leb(len(b)) + b
+        good = [e for e in spec.producers if e != 'ERR']
+        data = leb(len(good) + 1)
+        for f, vals in good:
+            data += st_(C.s(f)) + leb(len(vals))
+            for a, b in vals:
+                data += st_(C.s(a)) + st_(C.s(b))
+        data += st_('broken')
+        J['customs'].append({'name': 'producers', 'data': data.hex(), 'place': 'end'})
+    elif spec.producers is not None:
         J['producers'] = [{'field': C.s(f), 'values': [[C.s(a), C.s(b)] for a, b in vals]} for f, vals in spec.producers]
     return J
